@@ -480,6 +480,10 @@ class SpecGen:
             node["body"] = "selector"
             node["args"] = {"a": self.selector_leaf()}
             self.unused.remove(node["args"]["a"])
+        elif cfg.get("wrapping_datasets") and not root and r.random() < 0.2 and any(n["k"] in ("withopts", "dataset", "cached") for n in self.nodes):
+            # dataset(<expression>, options=...): the decorator wraps an existing evaluatable
+            node["args"] = {}
+            node["wraps"] = self.pick(lambda j: self.info[j]["kind"] in ("withopts", "dataset", "cached"))
         else:
             nargs = r.randint(0 if not root else 1, 3)
             node["args"] = {"abc"[i]: self.pick_any() for i in range(nargs)}
@@ -660,6 +664,8 @@ def children(n):
         out.extend(n.get("effects_opt", []))
         if n.get("callback_opt"):
             out.append(n["callback_opt"])
+        if n.get("wraps"):
+            out.append(n["wraps"])
         if isinstance(n.get("returns"), dict):
             out.append(n["returns"]["node"])  # (referred to, never evaluated: the object itself is the value)
         if isinstance(n.get("dispatch"), dict):
